@@ -42,7 +42,7 @@ type c17Case struct {
 }
 
 var c17TreeCfg = h.TreeCfg{
-	MaxEntries: 12, MaxDepth: 3, Names: []string{"a", "b", "c", "ab", "a-b", "é", "日本", "x y", "d", "sub"},
+	MaxEntries: 12, MaxDepth: 3, Names: []string{"a", "b", "c", "ab", "a-b", "é", "日本", "x y", "d", "sub", ".hidden", "..data", "..."},
 	Kinds:  []h.Kind{h.KFile, h.KFile, h.KFile, h.KSymlink, h.KFifo, h.KChar, h.KBlock},
 	Xattrs: true, XattrNS: []string{"user.", "trusted."}, Hardlinks: true, SpecialLinks: true, BigFiles: true, LongNames: true,
 	SymTargets: []string{"a", "../b", "/abs/target", "dangling", strings.Repeat("t", 120)}, UncleanTargets: true,
@@ -252,6 +252,13 @@ func c17Check(env *h.Env, c *c17Case) error {
 	members, err := readTar(buf.Bytes())
 	if err != nil {
 		return err
+	}
+	// well-formed down to the last byte: whole 512-byte blocks, closed by the
+	// end-of-archive marker (two zero blocks); a lenient reader forgives both
+	if raw := buf.Bytes(); len(raw)%512 != 0 {
+		return fmt.Errorf("the archive is %d bytes long: not a whole number of 512-byte blocks", len(raw))
+	} else if len(raw) < 1024 || len(bytes.Trim(raw[len(raw)-1024:], "\x00")) != 0 {
+		return fmt.Errorf("the archive (%d bytes, %d members) does not end with the end-of-archive marker (two zero blocks)", len(raw), len(members))
 	}
 	nt := false
 	if len(members) != len(want) {
